@@ -76,7 +76,9 @@ func init() {
 			return append([]Unit{{Name: "enum-appendentries", Enum: enumC04}}, scUnits(2, "write3", "crash3", "fig8", "stale-suffix", "stale-suffix-trail", "snap3", "snap3-mono", "majority-restart", "member")...)
 		})
 	clusterCheck("C05",
-		func() []Unit { return append([]Unit{{Name: "enum-commitment", Enum: enumC05}}, scUnits(1, "write3", "crash3", "member", "member-race", "fig8", "transfer")...) },
+		func() []Unit {
+			return append([]Unit{{Name: "enum-commitment", Enum: enumC05}}, scUnits(1, "write3", "crash3", "member", "member-race", "fig8", "transfer")...)
+		},
 		func() []Unit {
 			return append([]Unit{{Name: "enum-commitment", Enum: enumC05}}, scUnits(2, "write3", "crash3", "member", "member-race", "fig8", "transfer", "snap3")...)
 		})
@@ -91,7 +93,9 @@ func init() {
 		func() []Unit { return scUnits(1, "write3", "crash3", "transfer", "majority-restart") },
 		func() []Unit { return scUnits(2, "write3", "crash3", "transfer", "majority-restart", "fig8") })
 	clusterCheck("C10",
-		func() []Unit { return scUnits(1, "write3", "crash3", "majority-restart", "member", "snap3", "snap3-mono") },
+		func() []Unit {
+			return scUnits(1, "write3", "crash3", "majority-restart", "member", "snap3", "snap3-mono")
+		},
 		func() []Unit {
 			return scUnits(2, "write3", "crash3", "majority-restart", "member", "snap3", "snap3-mono", "stale-suffix")
 		})
@@ -101,6 +105,61 @@ func init() {
 		},
 		func() []Unit {
 			return append([]Unit{{Name: "enum-compaction", Enum: enumC11}}, scUnits(2, "snap3", "snap3-trail1", "snap3-mono", "stale-suffix", "stale-suffix-trail", "member", "crash3")...)
+		})
+	timedAssumptions := []string{
+		"timed regime: virtual clock, timers fire strictly in deadline order, thread steps and message delivery take no virtual time",
+		"HeartbeatTimeout = ElectionTimeout = LeaderLeaseTimeout = 100ms, CommitTimeout 50ms; per-server timeout jitter fixed and pairwise distinct (deviation: close to the maximum)",
+		"the instant of the fault is chosen by the explorer among all quiescent points with a stable leader (one instant per execution)",
+	}
+	timedRule := "deviation-bounded DFS in the timed regime: the root execution performs the scripted fault at its default instant; every alternative performs it at another quiescent instant (or changes one timeout jitter); a case is one complete execution; distinct = distinct final outcome"
+	register(&Check{Prop: "C13", Level: "model_checking", Rule: timedRule, Assumptions: timedAssumptions, Units: func(tier string) []Unit {
+		if tier == "thorough" {
+			return scUnits(1, "lease3", "lease3-b", "lease2nv", "quiet3")
+		}
+		return cat(scUnits(1, "lease3", "lease2nv"), []Unit{{Name: "quiet3", Sc: scenarioByName("quiet3"), Bound: 1, Budget: 0}})
+	}})
+	register(&Check{Prop: "C14", Level: "model_checking", Rule: timedRule, Assumptions: timedAssumptions, Units: func(tier string) []Unit {
+		if tier == "thorough" {
+			return scUnits(1, "prevote3-1", "prevote3-5", "prevote3-20", "prevote3-leader", "prevote5-5", "prevote3-mixed")
+		}
+		return scUnits(1, "prevote3-1", "prevote3-5", "prevote3-leader", "prevote3-mixed")
+	}})
+	fineRule := "deviation-bounded DFS where, from the scripted race on, every select / lock / wait of every thread is a branching point (preemptions, alternative ready select cases and free scheduling choices each cost one deviation); a case is one complete execution; distinct = distinct final outcome"
+	fineAssumptions := []string{
+		"2 voters; one client thread issuing the call, one calling Shutdown() and then the same call again; buffered (BatchApplyCh) and unbuffered apply channel",
+		"preemption/choice bound 1 (quick) or 2 (thorough) after the race starts; before it the default schedule is followed",
+		"a caller is stranded when nothing at all is enabled any more, or when its server is shut down and none of the server's threads is left",
+	}
+	register(&Check{Prop: "C17", Level: "model_checking", Rule: fineRule, Assumptions: fineAssumptions, Units: func(tier string) []Unit {
+		b := 1
+		if tier == "thorough" {
+			b = 2
+		}
+		var us []Unit
+		for _, k := range shutdownKinds {
+			us = append(us, scUnit("shutdown-"+k, b))
+			if k == "apply" || k == "barrier" || k == "verify" || k == "restore" || tier == "thorough" {
+				us = append(us, scUnit("shutdown-"+k+"-batch", b))
+			}
+		}
+		us = append(us, scUnit("stepdown-calls", b))
+		if tier == "thorough" {
+			us = append(us, scUnits(1, "write3", "crash3", "transfer", "member")...)
+		}
+		return us
+	}})
+	clusterCheck("C18",
+		func() []Unit { return scUnits(1, "notify3") },
+		func() []Unit { return scUnits(2, "notify3") })
+	clusterCheck("C09",
+		func() []Unit { return scUnits(1, "verify-nonvoter", "verify3", "verify-stale-ack") },
+		func() []Unit { return scUnits(2, "verify-nonvoter", "verify3", "verify-stale-ack") })
+	clusterCheck("C20",
+		func() []Unit {
+			return scUnits(1, "restore3-below", "restore3-equal", "restore3-above", "restore3-mono-below", "restore3-mono-above", "restore3-lagging", "restore-refused")
+		},
+		func() []Unit {
+			return scUnits(2, "restore3-below", "restore3-equal", "restore3-above", "restore3-mono-below", "restore3-mono-above", "restore3-lagging", "restore-refused")
 		})
 }
 
